@@ -47,4 +47,9 @@ def line (toks : List String) (impl : String) : Res :=
   | "pair" :: rest => pairLine rest impl
   | _ => bad "prio: unknown op"
 
+-- @component prio
+abbrev State := Unit
+def init : State := ()
+def step (s : State) (toks : List String) (impl : String) : State × Res := (s, line toks impl)
+
 end Driver.Prio
